@@ -261,6 +261,9 @@ func (g *Gen) Next() Op {
 		default:
 			src = g.randSegs()
 		}
+		if kind != OpCopyFile && !g.Cfg.NoDestInsideSrc && g.R.Intn(8) == 0 {
+			src = nil // the whole view, spelled "", ".", "/", "x/.." … (a snapshot of the view into a fresh sub-directory)
+		}
 		var dst []string
 		for try := 0; try < 10; try++ {
 			if good {
